@@ -51,6 +51,10 @@ def subtree(entity, cross=False):
     return {"node": node, "kids": kids}
 
 
+def program_mode_r(p):
+    return p.get("source_mode") == "r" and p["target"] == "ws2"
+
+
 def first_diff(a, b, path=""):
     if isinstance(a, dict) and isinstance(b, dict):
         for key in sorted(set(a) | set(b), key=str):
@@ -97,6 +101,9 @@ class C12(Check):
             out.append({"kind": kind, "cls": cls, "target": target, "children": children, "clear": clear,
                         "geom": {"n": 4, "g": [1, -2, 3, 0, 5, -4, 2, 7, 1, 3]}, "vals": [3, None, -2, 8, 1, 4],
                         "edits": ["values_rw", "rename"] if target != "same" else ["metadata", "values_rw"]})
+            if target == "ws2" and children and not clear:
+                # copying OUT of a workspace opened read-only (the source must not be written to)
+                out.append({**out[-1], "source_mode": "r"})
         return out
 
     def strategy(self, tier):
@@ -106,6 +113,7 @@ class C12(Check):
             "geom": st.fixed_dictionaries({"n": st.integers(2, 6), "g": st.lists(st.integers(-9, 9), min_size=3, max_size=10)}),
             "vals": st.lists(st.one_of(st.integers(-20, 20), st.none()), min_size=0, max_size=10),
             "edits": st.lists(st.sampled_from(["values", "values_rw", "vertices", "metadata", "rename", "pg"]), max_size=3),
+            "source_mode": st.sampled_from(["r+", "r+", "r"]),
         }).map(lambda d: {**{k: v for k, v in d.items() if k != "kind_cls"}, "kind": d["kind_cls"][0], "cls": d["kind_cls"][1]})
 
     # ------------------------------------------------------------------ builders
@@ -213,6 +221,14 @@ class C12(Check):
                 res.label(f"build_failed:{cls}:{type(exc).__name__}")
                 return res
             cross = target == "ws2"
+            if program_mode_r(p):
+                # re-open the source read-only and fetch the subject again
+                uid0, home_uid = subject.uid, home.uid
+                ws1.close()
+                del subject, home
+                ws1 = Workspace(path1, mode="r")
+                subject, home = ws1.get_entity(uid0)[0], ws1.get_entity(home_uid)[0]
+                res.label("source:read-only")
             # receiving parent
             if kind == "data":
                 if target == "same":
